@@ -76,3 +76,18 @@ Proof.
   - apply andb_true_iff in Hout as [Hout _]. apply andb_true_iff in Hout as [Hout _]. exact Hout.
   - apply andb_true_iff in Hout as [Hout _]. exact Hout.
 Qed.
+
+(* what the correspondence executes for a concurrent step is a run of the single-flight transition
+   system; for a batch of one it is the sequential handler *)
+Lemma conc_model_is_crun mac o :
+  conc_model mac o = snd (crun mac (co_secret o) (co_provider o) (map (CReq (co_clock o)) (co_reqs o))).
+Proof. reflexivity. Qed.
+
+Lemma conc_model_single mac secret p clock q bodies calls :
+  conc_model mac {| co_secret := secret; co_provider := p; co_clock := clock; co_reqs := [q]; co_bodies := bodies; co_calls := calls |}
+  = [auth_sign_out mac secret p clock q].
+Proof.
+  unfold conc_model, crun. cbn [map co_secret co_provider co_clock co_reqs crun_from].
+  pose proof (cstep_alone mac secret p cinit clock q eq_refl) as H.
+  destruct (cstep mac secret p cinit (CReq clock q)) as [st1 o]. cbn [snd] in *. subst o. reflexivity.
+Qed.
